@@ -38,15 +38,15 @@ def _drop():
 def observe(cfg, act, args):
     if act == "parse":
         return W.parse_range_direct(args[0])
-    m, has_range, value, inm, ims = args
-    return W.project_range(W.range_request(_files(), cfg["size"], cfg["k"], m, has_range, value, inm, ims))
+    m, has_range, value, inm, ims, fmt = args
+    return W.project_range(W.range_request(_files(), cfg["size"], cfg["k"], m, has_range, value, inm, ims, fmt))
 
 
 def _sig(cfg, act, args, exp, obs):
     if act == "parse":
         return {"act": act, "junk": W.range_features(args[0]), "exp_ignored": exp[0]["ignored"], "obs_ignored": obs["ignored"]}
-    m, has_range, value, inm, ims = args
-    return {"act": act, "method": m, "junk": W.range_features(value) if has_range else "norange",
+    m, has_range, value, inm, ims, fmt = args
+    return {"act": act, "method": m, "ims": ims, "imsfmt": fmt, "junk": W.range_features(value) if has_range else "norange",
             "exp_st": sorted(r["st"] for r in exp), "obs_st": obs["st"], "cond": inm != "none" or ims != "none",
             "same_status": obs["st"] in [r["st"] for r in exp]}
 
@@ -94,7 +94,8 @@ def random_trace(a):
         inm = rng.choice(["none"] * 6 + ["match", "differ", "star", "weak", "list", "listdiffer"])
         ims = rng.choice(["none"] * 6 + ["before", "equal", "after", "garbage"])
         m = rng.choice(["GET", "GET", "HEAD"])
-        args = [m, has_range, W.chars(text), inm, ims]
+        fmt = rng.choice(["imf", "rfc850", "asctime", "nozone"]) if ims in ("before", "equal", "after") else "imf"
+        args = [m, has_range, W.chars(text), inm, ims, fmt]
         ev.append({"a": "request", "args": args, "obs": observe(cfg, "request", args)})
     return {"id": tid, "cfg": cfg, "ev": ev}
 
@@ -105,7 +106,7 @@ def _trace_sig(t, bad, l):
     if bad["a"] == "parse":
         return {"junk": W.range_features(bad["args"][0]), "obs_ignored": bad["obs"]["ignored"]}
     return {"method": bad["args"][0], "junk": W.range_features(bad["args"][2]) if bad["args"][1] else "norange",
-            "obs_st": bad["obs"]["st"], "cond": bad["args"][3] != "none" or bad["args"][4] != "none"}
+            "obs_st": bad["obs"]["st"], "cond": bad["args"][3] != "none" or bad["args"][4] != "none", "imsfmt": bad["args"][5]}
 
 
 def run(ctx):
